@@ -1,6 +1,6 @@
 (* C09 -- concrete witnesses: where the code as it is does NOT reflect the new state (linear transforms
    with callable parameters), and non-vacuity of the positive theorems (evaluation of the executable instance). *)
-From Coq Require Import List Bool.
+From Coq Require Import List Bool ZArith QArith Qcanon.
 From DV Require Import Base.QcInst Model.TransformState Model.TransformStateRun Model.TransformStateEx
   Gen.TState Model.TransformCfg.
 Import ListNotations.
@@ -43,3 +43,34 @@ Proof. vm_compute. reflexivity. Qed.
 Lemma composite_direct_witness :
   seq_direct_fresh_after gen_cfg h_seq_direct 2 = true /\ seq_direct_fresh_after gen_cfg h_seq_direct_noclear 2 = false.
 Proof. vm_compute. split; reflexivity. Qed.
+
+(* accessor copies (ac06f87): a transform obtained through grid(g) or data(arg) from a transform holding an
+   nn.Parameter has its own _parameters dict -- a later data_() on the original is not seen by it (and the
+   original is not touched by data(arg)); a plain shallow copy, condition(...) and inverse() keep sharing *)
+Definition x_call_gives (h : list rop) (o : nat) (want : list Qc) : bool :=
+  match snd (x_step gen_cfg (x_run gen_cfg h) (Call PV nat CV o)) with
+  | Out _ _ l _ => vclose 0%Q (out_val l) want
+  | _ => false
+  end.
+Definition h_acc (mk : rop) : list rop :=
+  [New PV nat CV KLin 0 (PkTen PV (qv 1 2, 0) true); mk; DataSet PV nat CV 0 (qv 3 (-5), 0) false].
+Lemma accessor_copies_independent :
+  x_call_gives (h_acc (GridNew PV nat CV 0 2)) 1 (qv 1 2) = true /\
+  x_call_gives (h_acc (DataNew PV nat CV 0 (qv 7 7, 0) false)) 1 (qv 7 7) = true /\
+  x_call_gives (h_acc (DataNew PV nat CV 0 (qv 7 7, 0) false)) 0 (qv 3 (-5)) = true /\
+  x_call_gives (h_acc (Copy PV nat CV 0)) 1 (qv 3 (-5)) = true /\
+  x_call_gives (h_acc (CondNew PV nat CV 0 (1, 0))) 1 (qv 3 (-5)) = true /\
+  x_call_gives (h_acc (Inverse PV nat CV 0 false false)) 1 (qv (-3) 5) = true.
+Proof. vm_compute. repeat split; reflexivity. Qed.
+
+(* the six observations above as one boolean (in the order: grid(g) copy keeps the old parameters; data(arg) copy
+   holds arg; the original follows its own data_; copy / condition / inverse follow the original's data_) *)
+Definition accessor_witness : bool :=
+  x_call_gives (h_acc (GridNew PV nat CV 0 2)) 1 (qv 1 2) &&
+  x_call_gives (h_acc (DataNew PV nat CV 0 (qv 7 7, 0) false)) 1 (qv 7 7) &&
+  x_call_gives (h_acc (DataNew PV nat CV 0 (qv 7 7, 0) false)) 0 (qv 3 (-5)) &&
+  x_call_gives (h_acc (Copy PV nat CV 0)) 1 (qv 3 (-5)) &&
+  x_call_gives (h_acc (CondNew PV nat CV 0 (1, 0))) 1 (qv 3 (-5)) &&
+  x_call_gives (h_acc (Inverse PV nat CV 0 false false)) 1 (qv (-3) 5).
+Lemma accessor_witness_ok : accessor_witness = true.
+Proof. vm_compute. reflexivity. Qed.
